@@ -211,7 +211,8 @@ inline fsa::Fsa augmentedExplicitNulls(decoder_t *d) {
 
 inline bool isFillerWord(decoder_t *d, const std::string &w) {
   int32 wid = dict_wordid(d->dict, w.c_str());
-  return wid != BAD_S3WID && dict_filler_word(d->dict, wid);
+  // <s> and </s> are neither "filler" nor "real" for the dictionary: not real is what matters here
+  return wid != BAD_S3WID && !dict_real_word(d->dict, wid);
 }
 
 // ------------------------------------------------------------ search params
